@@ -151,7 +151,7 @@ def signature(err, sig, phase):
     m = re.search(r"(\S+?):\d+:\d+: runtime error: ([^\n]*)", err)
     if m:
         kind = re.sub(r"0x[0-9a-f]+|-?\d+", "N", m.group(2))
-        kind = " ".join(kind.split()[:6])
+        kind = " ".join(kind.split()[:10])
         fr = frames_of(err[m.start():])
         return "ubsan %s|%s" % (kind, "<".join(fr[:3]) or os.path.basename(m.group(1))), m.group(2)
     if "AddressSanitizer:DEADLYSIGNAL" in err or "AddressSanitizer: " in err and "ERROR" in err:
